@@ -58,7 +58,18 @@ def m_fread(I, st, fr, n, this, args, an):
         r = ov(I, st, fr, n, dst, sz, cnt, f, root)
         if r is not None:
             return r
-    got = R(0, rng(cnt, st.sym)[1]) if rng(cnt, st.sym) else TOP
+    rc_ = rng(cnt, st.sym)
+    if rc_:
+        # the number of items read is one fixed unknown of this call: a named symbol, so that a later feof() test (set exactly
+        # when the read came up short) and comparisons of the count refine one another
+        I.counter += 1
+        gname = '$got%d' % I.counter
+        st.sym[gname] = (0, rc_[1])
+        got = sym(gname)
+        st.comps[('lastread', root)] = (gname, cnt)
+    else:
+        got = TOP
+        st.comps.pop(('lastread', root), None)
     out = []
     # the destination is overwritten with file bytes (unknown content)
     if dst[0] == 'p':
@@ -142,7 +153,14 @@ def m_feof(I, st, fr, n, this, args, an):
     s2.comps[('feof', root)] = C(1)
     st.note((nloc(n), 'feof=0'))
     s2.note((nloc(n), 'feof=1'))
-    return [(st, C(0)), (s2, C(1))]
+    out = []
+    lr = st.comps.get(('lastread', root))
+    for s_, val, op in ((st, C(0), '=='), (s2, C(1), '<')):
+        # no read error is modelled: the indicator is set exactly when the last fread returned fewer items than asked for
+        if lr is not None and lr[0] in s_.sym and not I.refine(s_, fr, None, None, sym(lr[0]), lr[1], op):
+            continue
+        out.append((s_, val))
+    return out
 
 
 def m_fgetc(I, st, fr, n, this, args, an):
